@@ -225,6 +225,20 @@ def solve(eng, ob, timeout_ms, seed, want_model=True, axioms=True):
     return 'unknown', 'z3+cvc5', ms, None
 
 
+def _has_quant(t, depth=0):
+    if z3.is_quantifier(t):
+        return True
+    if depth > 60:
+        return False
+    return any(_has_quant(ch, depth + 1) for ch in t.children())
+
+
+class Obligation_qf:
+    def __init__(self, ob):
+        self.pc = [p for p in ob.pc if not _has_quant(p)]
+        self.goal = ob.goal
+
+
 def discharge_all(eng, c, case, tier, seed):
     tmo = QUICK_MS if tier == 'quick' else THOROUGH_MS
     tmo = c.opts.get('timeout_ms', tmo)
@@ -244,6 +258,11 @@ def discharge_all(eng, c, case, tier, seed):
                     # quantified (trusted) axioms make sat answers hard: the
                     # reachability check does not need them
                     r, be, ms, m = solve(eng, ob, min(tmo, 5000), seed, axioms=False)
+                if r == 'unknown':
+                    # quantified path facts (rep invariants): check reachability
+                    # of the quantifier-free part of the path condition
+                    ob2 = Obligation_qf(ob)
+                    r, be, ms, m = solve(eng, ob2, min(tmo, 5000), seed, axioms=False)
                 agg['ms'] += ms
                 backends.add(be)
                 if r == 'sat':
